@@ -17,6 +17,17 @@ structure WF (i : Inst) : Prop where
   cap    : 0 ≤ i.cap
   demand : ∀ j, 0 ≤ i.demand j
 
+/-- the delivered amount in the shape the proofs use; holds because the extracted source shape is
+`torch.min(selected_demand, vehicle_capacity - used_capacity)` (`Params.sdvrpStepDeliverIsMin`,
+`Params.sdvrpStepFreeIsCapMinusUsed`): a source edit of either operand breaks this proof. -/
+theorem delivered_eq (i : Inst) (s : State) (a : Nat) : delivered i s a = min (s.rem a) (i.cap - s.used) := by
+  simp [delivered, Params.sdvrpStepDeliverIsMin, Params.sdvrpStepFreeIsCapMinusUsed]
+
+/-- the load update `(used + delivered) * (current_node != 0)` (`Params.sdvrpStepDepotCmp = ne`) -/
+theorem step_used (i : Inst) (s : State) (a : Nat) :
+    (env.step i s a).used = (if a ≠ 0 then s.used + delivered i s a else 0) := by
+  simp [env, step, Params.sdvrpStepDepotCmp, Cmp.evalNat]
+
 /-- bookkeeping invariant of the environment (preserved by every step, admitted or not) -/
 structure EInv (i : Inst) (s : State) : Prop where
   used0 : 0 ≤ s.used
@@ -43,8 +54,8 @@ theorem einv_step (i : Inst) (s : State) (a : Nat) (hi : EInv i s) : EInv i (env
   by_cases ha : a = 0
   · subst ha
     have hd : delivered i s 0 = 0 := by
-      simp only [delivered, hi.rem0]; omega
-    refine ⟨by simp [env, step], by simp only [env, step]; simp; omega, ?_, ?_, ?_⟩
+      simp only [delivered_eq, hi.rem0]; omega
+    refine ⟨by simp [step_used], by rw [step_used]; simp; omega, ?_, ?_, ?_⟩
     · simp [env, step, hd, hi.rem0]
     · intro j hj
       have : j ≠ 0 := by omega
@@ -53,12 +64,12 @@ theorem einv_step (i : Inst) (s : State) (a : Nat) (hi : EInv i s) : EInv i (env
       simp only [env, step, Bool.not_eq_true'] at hdn
       exact anyRem_false hdn j hj
   · have hr := hi.remNN a (by omega)
-    have hd0 : 0 ≤ delivered i s a := by simp only [delivered]; omega
-    have hdr : delivered i s a ≤ s.rem a := by simp only [delivered]; omega
-    have hdc : s.used + delivered i s a ≤ i.cap := by simp only [delivered]; omega
+    have hd0 : 0 ≤ delivered i s a := by simp only [delivered_eq]; omega
+    have hdr : delivered i s a ≤ s.rem a := by simp only [delivered_eq]; omega
+    have hdc : s.used + delivered i s a ≤ i.cap := by simp only [delivered_eq]; omega
     refine ⟨?_, ?_, ?_, ?_, ?_⟩
-    · simp only [env, step, ne_eq, ha, not_false_eq_true, if_true]; omega
-    · simp only [env, step, ne_eq, ha, not_false_eq_true, if_true]; exact hdc
+    · rw [step_used]; simp only [ne_eq, ha, not_false_eq_true, if_true]; omega
+    · rw [step_used]; simp only [ne_eq, ha, not_false_eq_true, if_true]; exact hdc
     · have : (0 : Nat) ≠ a := fun h => ha h.symm
       simp only [env, step, upd_apply, this, if_false]; exact hi.rem0
     · intro j hj
@@ -84,8 +95,8 @@ theorem rem_eq_greedyRem (i : Inst) {s s' : State} {as : List Nat} (h : Run env 
     · subst ha
       have hd : delivered i s 0 = 0 := by
         have := hi.usedC
-        simp only [delivered, hi.rem0]; omega
-      have hu : (env.step i s 0).used = 0 := by simp [env, step]
+        simp only [delivered_eq, hi.rem0]; omega
+      have hu : (env.step i s 0).used = 0 := by simp [step_used]
       rw [hu]
       simp only [greedyRem, if_true]
       apply greedyRem_congr
@@ -95,9 +106,9 @@ theorem rem_eq_greedyRem (i : Inst) {s s' : State} {as : List Nat} (h : Run env 
       · exact hj
     · simp only [greedyRem, ha, if_false]
       have hu : (env.step i s a).used = s.used + min (s.rem a) (i.cap - s.used) := by
-        simp [env, step, ha, delivered]
+        simp [step_used, ha, delivered_eq]
       have hr : (env.step i s a).rem = upd s.rem a (s.rem a - min (s.rem a) (i.cap - s.used)) := by
-        simp [env, step, delivered]
+        simp [env, step, delivered_eq]
       rw [hu, hr]
 
 /-- **C01 (SDVRP)**, strong form: the greedy replay of a finished mask-confined episode is a valid split. -/
